@@ -42,7 +42,9 @@ def rule_dict(r, idx):
         det[first] = [dict(det[first][0], EventID=int(r["fname"]))] + det[first][1:]
     det["condition"] = conds[0] if len(conds) == 1 else conds
     ls = {"product": "windows", "service": "sysmon"} if r["dir"] == 1 else {"product": "windows", "service": "application"}
-    d = {"title": f"T{r['title']}", "description": f"R{idx}", "logsource": ls, "detection": det}
+    # (which rule of the collection an object is, is carried by a custom attribute - these take no part in the equality
+    #  of rules, so that two rules drawn alike ARE equal, as two copies of one file are)
+    d = {"title": f"T{r['title']}", "description": "verif", "verif_idx": idx, "logsource": ls, "detection": det}
     if r["uid"]:
         d["id"] = uuid_of(r["uid"])
     return d
@@ -90,13 +92,13 @@ def run_once(case, perm, vorder):
         # must not depend on the order (their issues are compared between the runs, not with an expected set)
         allv = SigmaValidator(list(reversed(list(VALIDATORS.values()))) if vorder else list(VALIDATORS.values())).validate_rules(iter(rules))
         out["allsig"] = sorted(
-            cps(type(i).__name__ + ":" + ",".join(sorted(r.description for r in i.rules)) + ":"
+            cps(type(i).__name__ + ":" + ",".join(sorted("R" + str(r.custom_attributes["verif_idx"]) for r in i.rules)) + ":"
                 + ";".join(sorted(f"{k}={v}" for k, v in vars(i).items() if k != "rules")))
             for i in allv)
         recs = []
         for i in issues:
             t, attr = ISSUE_T.get(type(i).__name__, (type(i).__name__, None))
-            rs = sorted(int(r.description[1:]) for r in i.rules)
+            rs = sorted(int(r.custom_attributes["verif_idx"]) for r in i.rules)
             if attr:
                 key = cps(getattr(i, attr))
             elif t == "identifier_uniqueness":
